@@ -151,13 +151,12 @@ Definition batch (src xs : val) (f : timezone -> DateTime.ndt -> val) : val :=
   | _, _ => VBad
   end.
 
-(* TZ=:/path through the public route: a file chrono cannot read as TZif falls back to UTC
-   (current_zone: TimeZone::local(..).ok().or_else(fallback_timezone).unwrap_or_else(TimeZone::utc);
-   on the check machine /etc/localtime is UTC, so both fall-backs are UTC) *)
-Definition utc_zone : timezone := mk_tz [] [mk_ltt 0 false (Some (B"UTC"))] [] None.
-Definition env_zone (src : val) : option timezone :=
+(* TZ=:/path through the public route.  A file the reader rejects is reported as its error (the
+   harness asks the hook first): Local would silently convert in its fall-back zone, which is
+   C18's subject, not C05's. *)
+Definition env_zone (src : val) : option (R (res timezone)) :=
   match src with
-  | VStr b => Some (match parse b with Val (Ok z) => z | _ => utc_zone end)
+  | VStr b => Some (parse b)
   | _ => None
   end.
 
@@ -173,8 +172,13 @@ Definition run (op : bytes) (args : list val) : val :=
       if op_is op "lz.env" then
         match env_zone src, arg_list xs with
         | Some z, Some ns =>
-            if dir =? 0 then VTup (map (op_at z) ns)
-            else if dir =? 1 then VTup (map (op_loc z) ns)
+            if (dir =? 0) || (dir =? 1) then
+              match z with
+              | Val (Ok z) => VTup (map (if dir =? 0 then op_at z else op_loc z) ns)
+              | Val (Err e) => enc_err e
+              | Panic => VPanic
+              | OutOfFuel => VFuel
+              end
             else VBad
         | _, _ => VBad
         end
